@@ -79,6 +79,10 @@ RULES = {
     "R10": [(re.compile(r"nom::error::make_error\("), "nom::error::Error::new(")],
     # R11: `usize::from(x)` for x: u16 -> `(x as usize)` is identical (lossless widening); Verus has no From spec.
     "R11": [(re.compile(r"\busize::from\("), "vf_usize_from(")],
+    # R23: `x.into()` / `self.try_into()` -> generic wrapper fns (std's blanket Into / TryInto have no Verus specification)
+    "R23": [(re.compile(r"\b(\w+)\s*\.\s*into\(\)"), r"vf_into(\1)"), (re.compile(r"\b(\w+)\s*\.\s*try_into\(\)"), r"vf_try_into(\1)")],
+    # R21: `v.try_into()` on a `&FieldValue` -> generic wrapper fn (std's blanket TryInto has no Verus specification)
+    "R21": [(re.compile(r"\b(\w+)\s*\.\s*try_into\(\)"), r"vf_try_into(\1)")],
 }
 
 
@@ -311,6 +315,118 @@ def rule_r18(body, hits):
         raise AnchorLost("R18: no enumerate loop found")
     hits["R18"] = hits.get("R18", 0) + count
     return body
+
+
+def recv_start(m, dot):
+    """start of the postfix-expression chain that ends just before position `dot` (a '.') in masked text m"""
+    k = dot
+    while True:
+        j = k - 1
+        while j >= 0 and m[j].isspace():
+            j -= 1
+        if j < 0:
+            raise AnchorLost("R22: receiver not found")
+        if m[j] in ")]":
+            depth = 0
+            while j >= 0:
+                if m[j] in ")]}":
+                    depth += 1
+                elif m[j] in "([{":
+                    depth -= 1
+                    if depth == 0:
+                        break
+                j -= 1
+            # a call: identifier (path) directly before the '('
+            t = j
+            while t > 0 and (m[t - 1].isalnum() or m[t - 1] in "_:"):
+                t -= 1
+            start = t
+        elif m[j].isalnum() or m[j] == "_":
+            t = j
+            while t > 0 and (m[t - 1].isalnum() or m[t - 1] in "_:"):
+                t -= 1
+            start = t
+        elif m[j] == "?":
+            k = j
+            continue
+        else:
+            raise AnchorLost("R22: receiver not understood")
+        # continue leftwards only through a '.'
+        q = start - 1
+        while q >= 0 and m[q].isspace():
+            q -= 1
+        if q >= 0 and m[q] == ".":
+            k = q
+            continue
+        # a leading '&' / '*' belongs to the receiver only inside parentheses, which the ')' case covers
+        return start
+
+
+def rule_r22(body, hits):
+    """R22: Option combinators applied to a closure literal are replaced by their definitions (core::option):
+         R.or_else(|| B)   -> (match R { Some(__o) => Some(__o), None => B })
+         R.and_then(|v| E) -> (match R { Some(v) => E, None => None })
+         R.map(|v| E)      -> (match R { Some(v) => Some(E), None => None })      (only on Option receivers: unit-specific)
+    so that no closure is left (Verus would need a contract on each of them)."""
+    count = 0
+    while True:
+        m = mask(body)
+        mm = re.search(r"\.\s*(or_else|and_then|map)\(\s*\|", m)
+        if not mm:
+            break
+        dot = mm.start()
+        start = recv_start(m, dot)
+        recv = body[start:dot].strip()
+        op = m.index("(", dot)
+        cl = match_close(m, op)
+        clo = body[op + 1:cl].strip()
+        cm = re.match(r"\|([^|]*)\|\s*(.*)$", clo, re.S)
+        if not cm:
+            raise AnchorLost("R22: closure literal expected")
+        par, e = cm.group(1).strip(), cm.group(2).strip().rstrip(",").strip()
+        meth = mm.group(1)
+        pname, _, pty = par.partition(":")
+        pname = pname.strip()
+        bind = ("{ let %s: %s = %s; " % (pname, pty.strip(), pname)) if pty.strip() else ""
+        unb = " }" if bind else ""
+        if meth == "or_else":
+            if par:
+                raise AnchorLost("R22: or_else closure takes no parameter")
+            rep = "(match %s { Some(__o) => Some(__o), None => %s })" % (recv, e)
+        elif meth == "and_then":
+            rep = "(match %s { Some(%s) => %s%s%s, None => None })" % (recv, pname, bind, e, unb)
+        else:
+            rep = "(match %s { Some(%s) => %sSome(%s)%s, None => None })" % (recv, pname, bind, e, unb)
+        body = body[:start] + rep + body[cl + 1:]
+        count += 1
+    if not count:
+        raise AnchorLost("R22: no Option combinator found")
+    hits["R22"] = hits.get("R22", 0) + count
+    return body
+
+
+def rule_r24(body, hits):
+    """R24: `RECV.iter().flat_map(|X| E).collect()` (collecting into a Vec; E evaluates to a Vec) is replaced by the
+    definition of flat_map + collect:
+         { let __fm = &RECV; let mut __out = Vec::new(); let mut __q: usize = 0;
+           while __q < __fm.len() { let X = &__fm[__q]; __q += 1; let __v = E; vf_extend(&mut __out, __v); } __out }"""
+    m = mask(body)
+    mm = re.search(r"\.\s*iter\(\)\s*\.\s*flat_map\(\s*\|", m)
+    if not mm:
+        raise AnchorLost("R24: no iter().flat_map(..) found")
+    start = recv_start(m, mm.start())
+    recv = body[start:mm.start()].strip()
+    op = m.index("(", m.index("flat_map", mm.start()))
+    cl = match_close(m, op)
+    cm = re.match(r"\s*\|([^|]*)\|\s*(.*)$", body[op + 1:cl], re.S)
+    tail = re.match(r"\s*\.\s*collect\(\)", m[cl + 1:])
+    if not cm or not tail:
+        raise AnchorLost("R24: flat_map(|x| E).collect() expected")
+    rep = ("{ let __fm = &%s; let mut __out = Vec::new(); let mut __q: usize = 0; while __q < __fm.len() "
+           "{ let %s = &__fm[__q]; __q += 1; let __v = %s; vf_extend(&mut __out, __v); } __out }"
+           % (recv, cm.group(1).strip(), cm.group(2).strip().rstrip(",").strip()))
+    hits["R24"] = hits.get("R24", 0) + 1
+    return body[:start] + rep + body[cl + 1 + tail.end():]
 
 
 def apply_rules(body, rules, hits):
@@ -563,12 +679,16 @@ class Extractor:
                 hits["R19"] = hits.get("R19", 0) + 1
         for key, val in opts:
             if key == "prerules":
-                body = apply_rules(body, [r for r in val.split() if r not in ("R14", "R15", "R16", "R18")], hits)
+                body = apply_rules(body, [r for r in val.split() if r not in ("R14", "R15", "R16", "R18", "R22", "R24")], hits)
                 if "R16" in val.split():
                     at = [v for k, v in opts if k == "acctype"]
                     body = rule_r16(body, hits, at[0].strip() if at else None)
                 if "R18" in val.split():
                     body = rule_r18(body, hits)
+                if "R22" in val.split():
+                    body = rule_r22(body, hits)
+                if "R24" in val.split():
+                    body = rule_r24(body, hits)
                 if "R14" in val.split():
                     body = rule_r14(body, hits)
                 if "R15" in val.split():
